@@ -78,14 +78,17 @@ def run(tier, seed):
         hs = []
         meta = []
         for sz, ending, text, path in jobs:
-            for kind in ("plain", "count"):
+            for kind in ("plain", "count", "count0", "count1"):
                 n = 65536
                 if kind == "plain":
                     hs.append("ZG\tc%d:p:cc\tf%s" % (n, hexec.esc(path)))
                     hs.append("ZG\tc%d:p:cc\tA%s" % (n, hexec.esc(text)))
                 else:
-                    hs.append("ZG\tc%d:p:cc\tn16:%s" % (n, hexec.esc(path)))
-                    hs.append("ZG\tc%d:p:cc\tN16:%s" % (n, hexec.esc(text)))
+                    c = {"count": 16, "count0": 0, "count1": 1}[kind]
+                    if kind != "count" and sz % 7:
+                        continue           # chunk sizes below 2 on every seventh size
+                    hs.append("ZG\tc%d:p:cc\tn%d:%s" % (n, c, hexec.esc(path)))
+                    hs.append("ZG\tc%d:p:cc\tN%d:%s" % (n, c, hexec.esc(text)))
                 meta.append((sz, ending, kind, path))
         res = hexec.run(hs, variant="wrap", dangerous=True, timeout=20)
         for i, (sz, ending, kind, path) in enumerate(meta):
@@ -273,7 +276,8 @@ def replay(r, verbose=False):
         if r["entry"] == "plain":
             hs = ["ZG\tc65536:p:cc\tf%s" % hexec.esc(path), "ZG\tc65536:p:cc\tA%s" % hexec.esc(text)]
         else:
-            hs = ["ZG\tc65536:p:cc\tn16:%s" % hexec.esc(path), "ZG\tc65536:p:cc\tN16:%s" % hexec.esc(text)]
+            c = {"count": 16, "count0": 0, "count1": 1}[r["entry"]]
+            hs = ["ZG\tc65536:p:cc\tn%d:%s" % (c, hexec.esc(path)), "ZG\tc65536:p:cc\tN%d:%s" % (c, hexec.esc(text))]
         res = hexec.run(hs, variant="wrap", dangerous=True, nproc=1, timeout=20)
         if verbose:
             print([x[:80] for x in res[0]], "\n", [x[:80] for x in res[1]])
